@@ -118,9 +118,13 @@ fn main() {
         return;
     }
 
-    if let Err(e) = oracle::selfcheck() {
-        eprintln!("oracle selfcheck FAILED: {}", e);
-        std::process::exit(3);
+    // (the self-check of the reference models is interpreted far too slowly under Miri; every
+    //  check also runs natively, where it is performed)
+    if !cfg!(miri) {
+        if let Err(e) = oracle::selfcheck() {
+            eprintln!("oracle selfcheck FAILED: {}", e);
+            std::process::exit(3);
+        }
     }
 
     let report: Report = if let Some(path) = replay {
